@@ -4,14 +4,14 @@ Require Import Gengo.Base.Str Gengo.Model.Comments Gengo.Proofs.CommentsProofs.
 
 (* a declaration is delivered exactly the lines of the (non-trailing) block that ends on the line
    directly above it, unmodified *)
-Theorem C05_deliver_doc : forall gs d g, distinct_ends gs -> In g gs -> documents g (d_line d) ->
-  fst (deliver (index gs) d) = g_text g.
+Theorem C05_deliver_doc : forall gs code d g, distinct_ends gs -> In g gs -> documents g (d_line d) ->
+  fst (deliver (index gs) code d) = g_text g.
 Proof. exact deliver_doc. Qed.
 Print Assumptions C05_deliver_doc.
 
 (* a declaration with no such block is delivered none *)
-Theorem C05_deliver_none : forall gs d,
-  (forall g, In g gs -> ~ documents g (d_line d)) -> fst (deliver (index gs) d) = [].
+Theorem C05_deliver_none : forall gs code d,
+  (forall g, In g gs -> ~ documents g (d_line d)) -> fst (deliver (index gs) code d) = [].
 Proof. exact deliver_none. Qed.
 Print Assumptions C05_deliver_none.
 
@@ -22,22 +22,45 @@ Theorem C05_trailing_never_delivered : forall gs l g,
 Proof. exact trailing_never_indexed. Qed.
 Print Assumptions C05_trailing_never_delivered.
 
-(* the second-closest block is looked up two lines above the doc block, or above the declaration *)
-Theorem C05_second_closest : forall gs d, d_second d = true ->
-  snd (deliver (index gs) d) =
-  text_of (match prior (index gs) (d_line d) 1 with
-           | Some doc => prior (index gs) (g_start doc) 2
-           | None => prior (index gs) (d_line d) 2 end).
+(* the second-closest comment.  Its anchor is the first line of the doc block, or the declaration's
+   own line when it has none ... *)
+Theorem C05_second_closest_anchor : forall gs d,
+  (forall g, distinct_ends gs -> In g gs -> documents g (d_line d) -> anchor (index gs) d = g_start g) /\
+  ((forall g, In g gs -> ~ documents g (d_line d)) -> anchor (index gs) d = d_line d).
+Proof. intros gs d. split; [intros g Hd Hin Hdoc; exact (anchor_doc gs d g Hd Hin Hdoc)|exact (anchor_nodoc gs d)]. Qed.
+Print Assumptions C05_second_closest_anchor.
+(* ... the (non-trailing) block that ends two lines above the anchor, separated from it by one
+   blank line, is delivered unmodified ... *)
+Theorem C05_second_closest : forall gs code d g, distinct_ends gs -> d_second d = true -> In g gs ->
+  g_trailing g = false /\ (g_end g + 2 = anchor (index gs) d)%N /\ ~ In (anchor (index gs) d - 1)%N code ->
+  snd (deliver (index gs) code d) = g_text g.
 Proof. exact deliver_second. Qed.
 Print Assumptions C05_second_closest.
-
+(* ... a comment is never delivered across a line of code (the doc comment of the previous
+   declaration, the last comment inside the previous declaration's braces) ... *)
+Theorem C05_second_closest_never_across_code : forall gs code d, In (anchor (index gs) d - 1)%N code ->
+  snd (deliver (index gs) code d) = [].
+Proof. exact deliver_second_not_across_code. Qed.
+Print Assumptions C05_second_closest_never_across_code.
+(* ... and a declaration with no such block is delivered none *)
+Theorem C05_second_closest_none : forall gs code d,
+  (forall g, In g gs -> ~ (g_trailing g = false /\ (g_end g + 2 = anchor (index gs) d)%N /\ ~ In (anchor (index gs) d - 1)%N code)) ->
+  snd (deliver (index gs) code d) = [].
+Proof. exact deliver_second_none. Qed.
+Print Assumptions C05_second_closest_none.
 Theorem C05_package_comments : forall gs, package_comments gs = flat_map g_text gs.
 Proof. exact package_comments_spec. Qed.
 Print Assumptions C05_package_comments.
 
 Example C05_example :
   let gs := [ {| g_start := 1; g_end := 1; g_trailing := true; g_text := [s "trailing"] |};
-              {| g_start := 3; g_end := 3; g_trailing := false; g_text := [s "doc"] |} ] in
-  deliver (index gs) {| d_key := s "type:X"; d_line := 4; d_second := true |} = ([s "doc"], []) /\
-  deliver (index gs) {| d_key := s "type:Y"; d_line := 2; d_second := true |} = ([], []).
+              {| g_start := 3; g_end := 3; g_trailing := false; g_text := [s "doc"] |};
+              {| g_start := 6; g_end := 6; g_trailing := false; g_text := [s "detached"] |};
+              {| g_start := 8; g_end := 8; g_trailing := false; g_text := [s "doc Z"] |} ] in
+  let code := [1; 2; 4; 5; 9]%N in
+  deliver (index gs) code {| d_key := s "type:X"; d_line := 4; d_second := true |} = ([s "doc"], []) /\
+  deliver (index gs) code {| d_key := s "type:Y"; d_line := 2; d_second := true |} = ([], []) /\
+  (* W, directly below X: X's doc comment is not W's second-closest comment *)
+  deliver (index gs) code {| d_key := s "type:W"; d_line := 5; d_second := true |} = ([], []) /\
+  deliver (index gs) code {| d_key := s "type:Z"; d_line := 9; d_second := true |} = ([s "doc Z"], [s "detached"]).
 Proof. vm_compute. auto. Qed.
